@@ -67,7 +67,7 @@ func RandomMUSInput(r *Rng, maxVars, maxClauses int) (cnf [][]int, n int) {
 			cnf = append(cnf, append([]int{}, c...))
 		}
 	}
-	if len(cnf) > 0 && r.Chance(1, 4) { // clauses written with a repeated literal or a complementary pair
+	if len(cnf) > 0 && r.Chance(1, 3) { // clauses written with a repeated literal or a complementary pair
 		for k := r.Range(1, 2); k > 0; k-- {
 			i := r.Intn(len(cnf))
 			c := append([]int{}, cnf[i]...)
@@ -75,7 +75,7 @@ func RandomMUSInput(r *Rng, maxVars, maxClauses int) (cnf [][]int, n int) {
 				continue
 			}
 			x := c[r.Intn(len(c))]
-			if r.Chance(1, 4) {
+			if r.Chance(1, 2) {
 				x = -x
 			}
 			pos := r.Intn(len(c) + 1)
